@@ -24,8 +24,11 @@ two requests inside `handleRequest` at once (the `ff1` branch that releases a fi
 namespace Hertz.FsCache
 open Hertz
 
-/-- the bytes of a file are named, not stored: pattern `cid`, length `len` (the driver expands them) -/
+/-- a file OBJECT on disk: its identity `ino` (what `os.SameFile` compares; every write-to-temp + rename makes a new one,
+and a file object is never rewritten in place) and its bytes, which are named, not stored: pattern `cid`, length `len`
+(the driver expands them) -/
 structure Content where
+  ino : Nat
   cid : Nat
   len : Nat
 deriving DecidableEq, Repr
@@ -45,8 +48,6 @@ def Disk.set (d : Disk) (k : Nat) (n : Node) : Disk := fun j => if j = k then n 
 /-- what an open descriptor reads -/
 inductive Src where
   | content (c : Content)
-  /-- `os.Open` of a directory succeeds; every `Read` fails with EISDIR -/
-  | dirfd
 deriving DecidableEq, Repr
 
 /-- a `*bigFileReader` sitting in `ff.bigFiles` (it owns a descriptor) -/
@@ -150,16 +151,19 @@ def openPath (d : Disk) (key : Nat) : OpenRes :=
   | .dir (some (c, mt)) => .ok true c mt
   | .dir none => .forbidden
 
-/-- `os.Open(ff.f.Name())` in `fsFile.bigFileReader`: by NAME, whatever is there now -/
+/-- `os.Open(ff.f.Name())` in `fsFile.bigFileReader` — by NAME, whatever is there now — followed by the check
+`os.SameFile(ff.f.Stat(), f.Stat())`: when the name denotes another file object (or a directory) by now, the fresh
+descriptor is closed and the error is returned (commit 435a1ed; before it the other file's bytes were streamed under the
+cached file's headers). -/
 def reopen (d : Disk) (o : Obj) : Option Src :=
   if o.viaIndex then
     match d o.key with
-    | .dir (some (c, _)) => some (.content c)
+    | .dir (some (c, _)) => if c = o.c then some (.content c) else none
     | _ => none
   else
     match d o.key with
-    | .file c _ => some (.content c)
-    | .dir _ => some .dirfd
+    | .file c _ => if c = o.c then some (.content c) else none
+    | .dir _ => none
     | .absent => none
 
 /-- `Close()` of a reader that is not (or no longer) in `live`:
